@@ -150,3 +150,40 @@ func (s c22Stage) tombFact(want bool) func(core.Fact) bool {
 		return ok && s.IsVal(x) && isNil == want
 	}
 }
+
+// c22VerbatimCopy: every overlay value read in f (the read expressions, and the locals in vals that hold
+// one) is used only as the value argument of a Tree.Put — f copies entries from one tree into another
+// and never interprets a value, so a nil tombstone stays a nil tombstone.
+func c22VerbatimCopy(f *core.FuncInfo, reads []ast.Expr, vals map[*types.Var]bool) bool {
+	okUse := map[ast.Expr]bool{}
+	for _, cs := range f.CallsTo(rbtP + "Tree.Put") {
+		if len(cs.Call.Args) == 2 {
+			okUse[ast.Unparen(cs.Call.Args[1])] = true
+		}
+	}
+	if len(okUse) == 0 {
+		return false
+	}
+	defRHS := map[ast.Expr]bool{}
+	for _, a := range assignments(f) {
+		if a.RHS != nil && vals[varOf(f, a.LHS)] {
+			defRHS[ast.Unparen(a.RHS)] = true
+		}
+	}
+	for _, r := range reads {
+		if !okUse[r] && !defRHS[r] {
+			return false
+		}
+	}
+	lhs := lhsIdents(f)
+	ok := true
+	f.InspectOwn(func(n ast.Node) bool {
+		if id, isID := n.(*ast.Ident); isID && !lhs[id] && !okUse[ast.Expr(id)] {
+			if v, _ := f.Info().ObjectOf(id).(*types.Var); v != nil && vals[v] {
+				ok = false
+			}
+		}
+		return ok
+	})
+	return ok
+}
